@@ -3,7 +3,7 @@
 Importing this module registers all rules."""
 from __future__ import annotations
 
-from .rules import own  # noqa: F401
+from .rules import own, pair, order, values, lock  # noqa: F401
 
 #: hand-confirmed floors for the units analysed (fail closed below)
 UNIT_FLOORS = {"modules": 11, "classes": 26, "functions": 235, "call_sites": 680}
@@ -35,6 +35,8 @@ PROPS = {
         "list while it is iterated.",
         "that guard conditions are right for every tree shape; list.sort's permutation property; concrete histories",
     ),
+    "C13": _p("ORDER-VBM, CB-CRIT, REG-CHK rollback, PURE for read-only operations.", "exceptions from deep inside containers"),
+    "C08": _p("filter rules", "kept set"),
     "C02": _p(
         "Index exactness clauses: OWN-1 for the two maps and _data/_data_id; PAIR-3 (every re-key moves the node "
         "between slots on every branch of set_data); REG-CHK / UNREG-SHAPE (append on register, identity removal "
